@@ -10,14 +10,16 @@ from util import call
 
 REQUIRED_THEOREMS = ['Usid.C13.parents_independent', 'Usid.C13.fresh_monotone', 'Usid.C13.exactly_that_base', 'Usid.C13.history_all_succeed',
                      'Usid.C13.lookup_exact', 'Usid.C13.provenance']
-RULE = ('[also: histories addressed in turn to TWO parent groups of one file] [also: tool names with a trailing underscore / surrounding blanks, indices at the 009/099/999 boundaries, a dataset at a results-style name, results created for like-named datasets of the parent group itself (decoys), the source handed over as a USIDataset, a File object as parent] histories (quick: length <= 8 random; thorough: also all histories of length <= 3 over a reduced vocabulary) of '
+RULE = ('[also: tool names containing . + ( ) * next to names they would match as patterns] [also: histories addressed in turn to TWO parent groups of one file] [also: tool names with a trailing underscore / surrounding blanks, indices at the 009/099/999 boundaries, a dataset at a results-style name, results created for like-named datasets of the parent group itself (decoys), the source handed over as a USIDataset, a File object as parent] histories (quick: length <= 8 random; thorough: also all histories of length <= 3 over a reduced vocabulary) of '
         'create_indexed_group / create_results_group (default placement, an explicit parent group elsewhere in the same file, '
         'a parent group in another file) / deletions over a name vocabulary closed under prefix and '
         'substring relations, with sibling groups and non-group objects present; non-trivial = at least one create '
         'whose base is a prefix/substring of another present name')
 BASES = ['A', 'A_', 'A_B', 'A_A', 'B', 'AB', 'A_0']
 DSETS = ['Raw', 'Raw_Data', 'Data', 'aw']
-TOOLS = ['Fit', 'Fitter', 'it', 'Fit_x', 'Fi-t', 'Fit_2', 'Fit_', ' Fit ']
+TOOLS = ['Fit', 'Fitter', 'it', 'Fit_x', 'Fi-t', 'Fit_2', 'Fit_', ' Fit ',
+         # characters that mean something to a regular expression / a glob: names are literal text
+         'Fi.t', 'Fixt', 'Fit+x', 'Fit(1)', 'Fi*']
 SIBLINGS = [('A_B_000', 'group'), ('A_A_005', 'group'), ('A_x', 'group'), ('A_7', 'group'), ('B_000', 'dataset'),
             ('A_001', 'dataset'), ('AB_0_1', 'group'), ('A_0_003', 'group'), ('Raw_Data-Fitter_002', 'group'),
             # two- and three-digit boundaries, a non-group object at a results-style name
